@@ -10,3 +10,5 @@ require (
 )
 
 replace github.com/moov-io/iso8583 => /repo
+
+require github.com/anishathalye/porcupine v1.3.0
